@@ -540,29 +540,45 @@ func Run(r *ev.Run) {
 	// leaves the others as parsed (whether the specs alias the INPUT bytes is not the property's business) ----
 	{
 		list, _ := ech.ConfigList([]ech.Config{mk(1, "a.example", sl[0]), mk(2, "b.example", sl[5]), mk(3, "c.example", sl[0])})
-		specs, err := ech.ParseConfigList(list)
-		if err != nil || len(specs) != 3 {
-			r.Violation("list-parse:3", fmt.Sprintf("ParseConfigList: %v", err), nil)
-		} else {
-			before := []string{fmt.Sprintf("%+v", specs[0]), fmt.Sprintf("%+v", specs[1]), fmt.Sprintf("%+v", specs[2])}
-			listBefore := slices.Clone(list)
-			// (appends of 1 and of 100 elements: a field that is a window into the list with the rest of the list as spare capacity
-			// lets a long append reach the NEXT config; an append writes no element the holder can see, so the list it was parsed
-			// from is as it was, too)
-			for _, n := range []int{1, 100} {
-				for i := range specs {
-					specs[i].CipherSuites = append(specs[i].CipherSuites, slices.Repeat([]ech.CipherSuite{{KDF: 0x7777, AEAD: 0x7777}}, n)...)
-					_ = append(specs[i].PublicName, bytes.Repeat([]byte{'x'}, n)...)
-					_ = append(specs[i].PublicKey, bytes.Repeat([]byte{0xff}, n)...)
-					specs[i].CipherSuites = specs[i].CipherSuites[:len(specs[i].CipherSuites)-n]
-					for j := range specs {
-						if got := fmt.Sprintf("%+v", specs[j]); got != before[j] {
-							r.Violation("parsed-specs-share-memory", fmt.Sprintf("after appending %d element(s) to the suites, the public name and the public key of spec %d of a parsed list, spec %d reads %s (was %s)", n, i, j, got, before[j]), nil)
+		// ... and a list from another encoder whose first config has an EMPTY public name and whose second has an empty public key
+		// (if the parser takes such configs at all, their empty fields are no windows into the rest of the list either)
+		foreign := append(tlsref.BuildConfig(1, tlsref.DetBytes("pk1", 32), refSuites(sl[0]), ""), tlsref.BuildConfig(2, nil, refSuites(sl[0]), "b.example")...)
+		foreign = append(foreign, mk(3, "c.example", sl[0])...)
+		foreign = append([]byte{byte(len(foreign) >> 8), byte(len(foreign))}, foreign...)
+		lists := [][]byte{list}
+		if sp, err := ech.ParseConfigList(foreign); err == nil && len(sp) == 3 {
+			lists = append(lists, foreign)
+		}
+		for _, list := range lists {
+			specs, err := ech.ParseConfigList(list)
+			if err != nil || len(specs) != 3 {
+				r.Violation("list-parse:3", fmt.Sprintf("ParseConfigList: %v", err), nil)
+			} else {
+				before := []string{fmt.Sprintf("%+v", specs[0]), fmt.Sprintf("%+v", specs[1]), fmt.Sprintf("%+v", specs[2])}
+				listBefore := slices.Clone(list)
+				// (appends of 1 and of 100 elements: a field that is a window into the list with the rest of the list as spare capacity
+				// lets a long append reach the NEXT config; an append writes no element the holder can see, so the list it was parsed
+				// from is as it was, too)
+				for _, n := range []int{1, 100, -1} {
+					for i := range specs {
+						nn, nk := n, n
+						if n < 0 { // as many octets as the spare capacity holds: the append that writes in place whatever the sizes
+							nn, nk = cap(specs[i].PublicName)-len(specs[i].PublicName), cap(specs[i].PublicKey)-len(specs[i].PublicKey)
+							n = 1
 						}
-					}
-					if !bytes.Equal(list, listBefore) {
-						r.Violation("parsed-specs-share-memory:input", fmt.Sprintf("after appending %d element(s) to the public name and the public key of spec %d (no element of them was written), the list they were parsed from reads %x (was %x)", n, i, list, listBefore), nil)
-						copy(list, listBefore)
+						specs[i].CipherSuites = append(specs[i].CipherSuites, slices.Repeat([]ech.CipherSuite{{KDF: 0x7777, AEAD: 0x7777}}, n)...)
+						_ = append(specs[i].PublicName, bytes.Repeat([]byte{'x'}, nn)...)
+						_ = append(specs[i].PublicKey, bytes.Repeat([]byte{0xff}, nk)...)
+						specs[i].CipherSuites = specs[i].CipherSuites[:len(specs[i].CipherSuites)-n]
+						for j := range specs {
+							if got := fmt.Sprintf("%+v", specs[j]); got != before[j] {
+								r.Violation("parsed-specs-share-memory", fmt.Sprintf("after appending %d element(s) to the suites, the public name and the public key of spec %d of a parsed list, spec %d reads %s (was %s)", n, i, j, got, before[j]), nil)
+							}
+						}
+						if !bytes.Equal(list, listBefore) {
+							r.Violation("parsed-specs-share-memory:input", fmt.Sprintf("after appending %d element(s) to the public name and the public key of spec %d (no element of them was written), the list they were parsed from reads %x (was %x)", n, i, list, listBefore), nil)
+							copy(list, listBefore)
+						}
 					}
 				}
 			}
